@@ -208,7 +208,7 @@ def teardown(ctx):
 @group(quick=500, thorough=20000)
 def direct1d(ctx, rng, idx):
     s = gen.scenario1d(rng, nmin=1, nmax=24, mach_max=float(rng.choice([0.5, 3.0, 10.0])), ratio=float(rng.choice([10.0, 1e4])),
-                       recons=["extrapol1"], big=0.03, lscale=0.15)
+                       recons=["extrapol1"], big=0.03, lscale=0.15, anysection=0.7)
     cfl = float(10 ** rng.uniform(-3, 3))
     if s.mname == "euler1d" and rng.random() < 0.15:
         s.field.data[1][:] = 0.0      # at rest
@@ -247,7 +247,7 @@ def solve_steps(ctx, rng, idx):
     iname = str(rng.choice(["explicit", "rk2", "rk3ssp", "rk4", "lsrk25bb", "implicit", "cranknicolson"]))
     dtlocal = bool(idx % 2)
     s = gen.scenario1d(rng, nmin=3, nmax=12, mach_max=1.2, ratio=4.0, fluxes=gen.UPWIND_FLUXES, recons=["extrapol1", "muscl_minmod", "extrapol2"],
-                       dkind="smooth" if iname in gen.IMPLICIT else None)
+                       dkind="smooth" if iname in gen.IMPLICIT else None, anysection=0.6)
     cfl = float(rng.uniform(0.05, 0.4))
     nstep = int(rng.integers(1, 7))
     hist = int(rng.integers(3))       # 0: fresh solver; 1: the solver has solved before with another CFL; 2: ... and the observed call is a restart
